@@ -520,11 +520,13 @@ impl TaskEmitter {
         };
         *seq += 1;
 
-        let _ = self.sender.send(event.clone());
-        #[cfg(feature = "verif")]
-        rip_kernel::verif::yield_async("task_emit:after_publish").await;
+        // Record before publishing (see `session::emit_event`): a subscriber that attaches between
+        // the two steps would otherwise miss the frame.
         let mut guard = self.events.lock().await;
         guard.push(event.clone());
+        #[cfg(feature = "verif")]
+        rip_kernel::verif::yield_async("task_emit:after_publish").await;
+        let _ = self.sender.send(event.clone());
         let _ = self.event_log.append(&event);
     }
 }
